@@ -118,8 +118,8 @@ Theorem intkey_refuted :
 Proof. split; [vm_compute; reflexivity|]. eexists. split; [vm_compute; reflexivity | vm_compute; reflexivity]. Qed.
 
 Definition E_same := mkEnv
-  [mkC "P1" "P" [mkF "v" "v" TInt false true None false] false false; mkC "P2" "P" [mkF "v" "v" TStr false true None false] false false;
-   mkC "HP" "HP" [mkF "a" "a" (TData "P1") false true None false; mkF "b" "b" (TData "P2") false true None false] false false] [] [] [].
+  [mkC "P1" "P" [mkF "v" "v" TInt false true None false None] false false; mkC "P2" "P" [mkF "v" "v" TStr false true None false None] false false;
+   mkC "HP" "HP" [mkF "a" "a" (TData "P1") false true None false None; mkF "b" "b" (TData "P2") false true None false None] false false] [] [] [].
 Definition doc_same := JObj [("a", JObj [("v", JInt 1)]); ("b", JObj [("v", JStr "s")])].
 Theorem shared_defs_refuted :
   enc_ok 9 E_same false false (TData "HP") (VObj [("a", VObj [("v", VInt 1)]); ("b", VObj [("v", VStr "s")])]) doc_same = true /\
@@ -140,7 +140,7 @@ Theorem set_collision_refuted :
             jvalid pm_any [] 50 s (JArr [JStr "2020-01-01"; JStr "2020-01-01"]) = false.
 Proof. split; [vm_compute; reflexivity|]. eexists. split; [vm_compute; reflexivity | vm_compute; reflexivity]. Qed.
 
-Definition E_init := mkEnv [mkC "B" "B" [mkF "n" "n" TInt true false None false] false false] [] [] [].
+Definition E_init := mkEnv [mkC "B" "B" [mkF "n" "n" TInt true false None false None] false false] [] [] [].
 Theorem init_false_refuted :
   enc_ok 5 E_init false false (TData "B") (VObj [("n", VInt 5)]) (JObj [("n", JInt 5)]) = true /\
   exists s, schema_f E_init dl2020 false false 5 (TData "B") = Some s /\ jvalid pm_any [] 50 s (JObj [("n", JInt 5)]) = false.
@@ -149,9 +149,9 @@ Proof. split; [vm_compute; reflexivity|]. eexists. split; [vm_compute; reflexivi
 (* non-vacuity witness for the soundness theorem: a dataclass with an alias, a default,
    a nested class, an optional, a list and a str-keyed dict *)
 Definition E_nv := mkEnv
-  [mkC "A" "A" [mkF "x" "xx" TInt false true None false; mkF "y" "y" (TUnion [TStr; TNone]) true true None false] false false;
-   mkC "H" "H" [mkF "a" "a" (TData "A") false true None false; mkF "l" "l" (TList false (TLeaf "date")) true true None false;
-                mkF "d" "d" (TDict TStr (TTuple [(false, TInt); (false, TBool)])) true true None false] false false] [] [] [].
+  [mkC "A" "A" [mkF "x" "xx" TInt false true None false None; mkF "y" "y" (TUnion [TStr; TNone]) true true None false None] false false;
+   mkC "H" "H" [mkF "a" "a" (TData "A") false true None false None; mkF "l" "l" (TList false (TLeaf "date")) true true None false None;
+                mkF "d" "d" (TDict TStr (TTuple [(false, TInt); (false, TBool)])) true true None false None] false false] [] [] [].
 Definition v_nv := VObj [("a", VObj [("x", VInt 1); ("y", VNone)]); ("l", VList [VLeaf "2020-01-01"]);
                          ("d", VDict [(VStr "k", VList [VInt 2; VBool true])])].
 Definition j_nv := JObj [("a", JObj [("xx", JInt 1); ("y", JNull)]); ("l", JArr [JStr "2020-01-01"]);
@@ -164,12 +164,12 @@ Proof.
 Qed.
 
 (* ---- named tuples as dicts / field override / omit_none ---- *)
-Definition NT_P := mkC "P" "P" [mkF "a" "a" TInt false true None false; mkF "b" "b" (TUnion [TStr; TNone]) true true None false] false false.
-Definition NT_Q := mkC "Q" "Q" [mkF "l" "l" (TList false (TNamed "P")) false true None false] false false.
+Definition NT_P := mkC "P" "P" [mkF "a" "a" TInt false true None false None; mkF "b" "b" (TUnion [TStr; TNone]) true true None false None] false false.
+Definition NT_Q := mkC "Q" "Q" [mkF "l" "l" (TList false (TNamed "P")) false true None false None] false false.
 
 (* KF schema-nt-override-in-containers: q: Q = field(metadata={"serialize": "as_dict"}), Q.l: List[P]:
    the serializer forgets the override inside the list ([[1, null]]), the schema does not *)
-Definition E_ovc := mkEnv [mkC "A" "A" [mkF "q" "q" (TNamed "Q") false true (Some true) false] false false] [] [NT_P; NT_Q] [].
+Definition E_ovc := mkEnv [mkC "A" "A" [mkF "q" "q" (TNamed "Q") false true (Some true) false None] false false] [] [NT_P; NT_Q] [].
 Definition v_ovc := VObj [("q", VList [VList [VList [VInt 1; VNone]]])].
 Definition j_ovc := JObj [("q", JObj [("l", JArr [JArr [JInt 1; JNull]])])].
 Theorem nt_override_container_refuted :
@@ -179,7 +179,7 @@ Proof. split; [vm_compute; reflexivity|]. eexists. split; [vm_compute; reflexivi
 
 (* fixed in /repo a5aab21 (was KF schema-omit-none-required): x: Optional[int] without default in a class with
    omit_none: the key is dropped for None and is not required *)
-Definition E_omit := mkEnv [mkC "A" "A" [mkF "x" "x" (TUnion [TInt; TNone]) false true None false] false true] [] [] [].
+Definition E_omit := mkEnv [mkC "A" "A" [mkF "x" "x" (TUnion [TInt; TNone]) false true None false None] false true] [] [] [].
 Theorem omit_none_required_example :
   ty_ok 5 E_omit false false (TData "A") = true /\
   enc_ok 5 E_omit false false (TData "A") (VObj [("x", VNone)]) (JObj []) = true /\
@@ -196,12 +196,12 @@ Qed.
      z: Optional[int] (no default: dropped when None, hence not required)
      y: Optional[str] = None, w: Literal[1, None] = None (nullable by "default is None": dropped when None) *)
 Definition E_nv2 := mkEnv
-  [mkC "S" "S" [mkF "p" "p" (TNamed "P") false true None false; mkF "o" "o" (TNamed "P") false true (Some false) false;
-                mkF "t" "t" (TList true (TNamed "P")) false true None false;
-                mkF "a" "a" (TList false (TUnion [TInt; TNone])) false true None false;
-                mkF "z" "z" (TUnion [TInt; TNone]) false true None false;
-                mkF "y" "y" (TUnion [TStr; TNone]) true true None true;
-                mkF "w" "w" (TLit [JInt 1; JNull]) true true None true] true true] [] [NT_P] [].
+  [mkC "S" "S" [mkF "p" "p" (TNamed "P") false true None false None; mkF "o" "o" (TNamed "P") false true (Some false) false None;
+                mkF "t" "t" (TList true (TNamed "P")) false true None false None;
+                mkF "a" "a" (TList false (TUnion [TInt; TNone])) false true None false None;
+                mkF "z" "z" (TUnion [TInt; TNone]) false true None false None;
+                mkF "y" "y" (TUnion [TStr; TNone]) true true None true None;
+                mkF "w" "w" (TLit [JInt 1; JNull]) true true None true None] true true] [] [NT_P] [].
 Definition v_nv2 := VObj [("p", VList [VInt 1; VNone]); ("o", VList [VInt 2; VStr "s"]); ("t", VList [VList [VInt 3; VNone]]);
                           ("a", VList [VInt 1; VNone]); ("z", VNone); ("y", VNone); ("w", VRaw JNull)].
 Definition j_nv2 := JObj [("p", JObj [("a", JInt 1); ("b", JNull)]); ("o", JArr [JInt 2; JStr "s"]);
@@ -247,4 +247,30 @@ Proof.
   split; [vm_compute; reflexivity|]. split.
   - eexists. split; [vm_compute; reflexivity | split; [vm_compute; reflexivity | vm_compute; reflexivity]].
   - eexists. split; [vm_compute; reflexivity | split; [vm_compute; reflexivity | vm_compute; reflexivity]].
+Qed.
+
+(* ---- overridden serialization (round 5) ---- *)
+(* KF schema-overridden-nullable: x: Optional[int] = field(metadata={"serialize": f}), f -> str: None passes through,
+   the schema is {"type": "string"} *)
+Definition E_ovn := mkEnv [mkC "A" "A" [mkF "x" "x" (TUnion [TInt; TNone]) false true None false (Some TStr)] false false] [] [] [].
+Theorem overridden_nullable_refuted :
+  enc_ok 5 E_ovn false false (TData "A") (VObj [("x", VNone)]) (JObj [("x", JNull)]) = true /\
+  exists s, schema_f E_ovn dl2020 false false 5 (TData "A") = Some s /\ jvalid pm_any [] 50 s (JObj [("x", JNull)]) = false.
+Proof. split; [vm_compute; reflexivity|]. eexists. split; [vm_compute; reflexivity | vm_compute; reflexivity]. Qed.
+
+(* non-vacuity: non-nullable fields with an overridden serializer (field option or a serialization_strategy entry):
+   the members are what the functions return, the schema describes the return annotations *)
+Definition E_ov := mkEnv [mkC "S" "S" [mkF "l" "l" (TList false TInt) false true None false (Some TStr);
+                                        mkF "d" "d" (TDict TStr TInt) true true None false (Some TInt);
+                                        mkF "p" "p" TBool false true None false None] false false] [] [] [].
+Lemma nonvacuous_override :
+  env_ok E_ov = true /\ ty_ok 9 E_ov false false (TData "S") = true /\
+  enc_ok 9 E_ov false false (TData "S") (VObj [("l", VStr "1,2"); ("d", VInt 7); ("p", VBool true)])
+         (JObj [("l", JStr "1,2"); ("d", JInt 7); ("p", JBool true)]) = true /\
+  exists s, schema_f E_ov dl2020 false false 9 (TData "S") = Some s /\
+            jvalid pm_any [] 50 s (JObj [("l", JStr "1,2"); ("d", JInt 7); ("p", JBool true)]) = true /\
+            jvalid pm_any [] 50 s (JObj [("l", JArr [JInt 1; JInt 2]); ("d", JInt 7); ("p", JBool true)]) = false.
+Proof.
+  split; [vm_compute; reflexivity|]. split; [vm_compute; reflexivity|]. split; [vm_compute; reflexivity|].
+  eexists. split; [vm_compute; reflexivity | split; [vm_compute; reflexivity | vm_compute; reflexivity]].
 Qed.
